@@ -340,6 +340,23 @@ impl<'a, F: IVP> SolOut for DefaultSolOut<'a, F> {
                                 self.next_idx = k;
                             }
 
+                            // A pending first output (x0 + first_step) that lies before the event
+                            // inside this step is part of the solution as well.
+                            if let (None, Some(h0), Some(interp)) = (self.t_eval.as_ref(), self.first_step, interpolant) {
+                                if !self.first_output_done && (xold - *x).abs() > self.tol {
+                                    let direction = (*x - xold).signum();
+                                    let step = h0.abs().min((self.xend - self.x0).abs());
+                                    let target = self.x0 + direction * step;
+                                    if direction * (*x - target) >= -self.tol && direction * (event_t - target) > 0.0 {
+                                        let mut yi = vec![0.0; y.len()];
+                                        interp.interpolate(target, &mut yi);
+                                        self.t.push(target);
+                                        self.y.push(yi);
+                                        self.first_output_done = true;
+                                    }
+                                }
+                            }
+
                             // Add the terminal event point to the output. Without t_eval an event
                             // located at the start of the step coincides with the previous sample,
                             // which then already is that point: do not repeat the time.
